@@ -172,3 +172,28 @@ Example C09_calm_example : sched wit_cf calm_chk init [] calm_example = true.
 Proof. exact calm_example_calm. Qed.
 Example C09_refuting_run_overlaps : sched wit_cf no_overlap_step init [] wit_silent = false.
 Proof. exact wit_silent_overlap. Qed.
+
+(* The admission decision (Relayer.canHandleNewCall, on the source and on the destination
+   connection) and the close decision (Relayer.canClose) of the model ARE the definitions
+   go2v regenerates from relay.go on every run (Gen/GenRelayFwd.v). *)
+From Verif Require Import Gen.GenRelayFwd Proofs.RelayGenTieP.
+
+Theorem C09_admission_decision_generated : forall cf st k f e c d room,
+  exec cf st (ICanHandle k f e c) room =
+    (let cn := get_conn st k in
+     if relayCanHandleNewCall (c_state cn)
+     then (put_conn st k {| c_state := c_state cn; c_pending := wrapU 32 (c_pending cn + 1); c_nextid := c_nextid cn |}, [IGetDest k f e c])
+     else (st, [ICb c (CbFailed reason_client_inactive); ICb c CbEnd; ISendErr k (f_id f) c_ErrCodeDeclined])) /\
+  exec cf st (IRemoteCan k f e c d) room =
+    (let cn := get_conn st d in
+     if relayCanHandleNewCall (c_state cn)
+     then (put_conn st d {| c_state := c_state cn; c_pending := wrapU 32 (c_pending cn + 1); c_nextid := c_nextid cn |}, [IAddDest k f e c d])
+     else (st, [ICb c (CbFailed reason_remote_inactive); ISendErr k (f_id f) c_ErrCodeDeclined; IDec k; ICb c CbEnd])).
+Proof. exact (fun cf st k f e c d room => conj (can_handle_tie cf st k f e c room) (remote_can_handle_tie cf st k f e c d room)). Qed.
+Print Assumptions C09_admission_decision_generated.
+
+Theorem C09_close_decision_generated : forall cf st k, panicked st = 0 ->
+  (c_state (get_conn st k) = c_connectionStartClose \/ c_state (get_conn st k) = c_connectionInboundClosed) ->
+  (step cf st (LDrained k) <> None <-> relayCanClose false (c_pending (get_conn st k)) = true).
+Proof. exact can_close_tie. Qed.
+Print Assumptions C09_close_decision_generated.
